@@ -16,7 +16,7 @@ for d in sorted(os.listdir(os.path.join(V, 'seeded'))):
         rows.append((d, 'PATCH-DOES-NOT-APPLY', a.stderr.strip()[:100]))
         continue
     try:
-        p = subprocess.run([os.path.join(V, 'check'), prop], capture_output=True, text=True, cwd=V)
+        p = subprocess.run([os.path.join(V, 'check'), prop], capture_output=True, text=True, cwd=V, env=dict(os.environ, VERIF_DEV_EVIDENCE='1'))
     finally:
         subprocess.run(['git', '-C', '/repo', 'checkout', '--', '.'])
     lines = [l for l in p.stdout.split('\n') if l.startswith(('VIOLATION', 'UNDECIDED', 'OK'))]
